@@ -9,3 +9,8 @@ claim("C19", "exploration", "Hypothesis-generated message sequences x segmentati
       "a reference model predicts the outcome and the instant of every read (message k, TimeoutError, end-of-stream). Every single split point of "
       "short streams is enumerated. Exploration: sequences/segmentations are unbounded, so the claim is 'held on everything generated'.",
       "The peer and the kernel are modelled at the asyncio StreamReader boundary; the UDS codec is replaced by a fixed function in the server-loop case.")
+claim("C01", "exploration", "Hypothesis per-class argument generation against a reference ISO 14229-1 encoder; round-trip through from_pdu/parse_dynamic; out-of-range mutation; client-method differential",
+      "Every request class reachable from the service registry / public namespace is constructed from generated in-range arguments; its bytes are compared with an "
+      "independent table-driven ISO 14229-1 encoder, parsed back statically and dynamically (never RawRequest, same fields, same bytes); arguments pushed out of range "
+      "must be refused; UDSClient service methods must write the reference encoding of the user's arguments. Exploration over an unbounded argument space.",
+      "Trusts the reference encoder (vf/refcodec.py, written from the ISO layouts). Classes without a reference entry are reported as unmodelled in the evidence notes.")
